@@ -168,94 +168,118 @@ def _sink_summary(c, sinks):
 # replays through the public API
 
 
-def _native_probe(which):
-    """run the public entry point with a nasty string; returns (failed, detail)."""
+NASTIES = [NASTY, NASTY2, "a > b", "]]>", "R&amp;D", "&#65;BC", "&#x41;", "&lt;tag&gt;", "&amp;amp;", "&quot;", "&apos;", "a&b;c", "&", "&&", "&;", "&#;",
+           "<![CDATA[x]]>", "<!--c-->", "<?pi x?>", "%s %d %(x)s", "{0} {name} {", "}{", "\\n", "'", '"', "a'b\"c", 'x="1" y=\'2\'', "<c:v>", "&#0;",
+           "\u00e9&\u00fc<", "\U0001F600&", "a<b>c</b>", "1 < 2 && 3 > 2"]
+
+
+def _native_probe(which, nasties=None):
+    """run the public entry point with each nasty string; returns (failed, detail) for the first that is not kept as data."""
     import io
+    import os
+    import shutil
+    import tempfile
 
     from PIL import Image as PIL
     from pptx import Presentation
     from pptx.util import Emu
 
+    nasties = NASTIES if nasties is None else nasties
     prs = Presentation()
     slide = prs.slides.add_slide(prs.slide_layouts[6])
+    fname_ok = lambda n: "/" not in n and "\x00" not in n
     try:
-        if which == "picture-desc":
-            import os
-            import tempfile
-
+        if which in ("picture-desc", "ph-picture-desc", "movie-name"):
             d = tempfile.mkdtemp(prefix="c05_")
             try:
-                path = os.path.join(d, 'a"b&c.png')
-                PIL.new("RGB", (2, 2)).save(path)
-                pic = slide.shapes.add_picture(path, Emu(0), Emu(0))
-                got = pic._element.xpath("./p:nvPicPr/p:cNvPr/@descr")[0]
-                return (got != 'a"b&c.png', "descr reads %r" % got)
+                for k, nasty in enumerate(n for n in nasties if fname_ok(n)):
+                    if which == "movie-name":
+                        path = os.path.join(d, nasty + ".mp4")
+                        open(path, "wb").write(b"\x00" * 16)
+                        mv = slide.shapes.add_movie(path, Emu(0), Emu(0), Emu(10), Emu(10), mime_type="video/mp4")
+                        got = mv._element.xpath("./p:nvPicPr/p:cNvPr/@name")[0]
+                    else:
+                        path = os.path.join(d, nasty + ".png")
+                        PIL.new("RGB", (2, 2), (k, 7, 9)).save(path)  # distinct pixels: identical images share one part (and its name)
+                        if which == "picture-desc":
+                            pic = slide.shapes.add_picture(path, Emu(0), Emu(0))
+                        else:
+                            s2 = prs.slides.add_slide(prs.slide_layouts[8])
+                            ph = [p for p in s2.placeholders if p.placeholder_format.type is not None and "PICTURE" in str(p.placeholder_format.type)][0]
+                            pic = ph.insert_picture(path)
+                        got = pic._element.xpath("./p:nvPicPr/p:cNvPr/@descr")[0]
+                    if got != os.path.basename(path):
+                        return (True, "file name %r reads %r" % (os.path.basename(path), got))
+                return (False, "file names with markup characters read back verbatim")
             finally:
-                import shutil
-
                 shutil.rmtree(d, ignore_errors=True)
         if which == "chart-number-format":
-            from pptx.chart.data import CategoryChartData
+            from pptx.chart.data import CategoryChartData, XyChartData
             from pptx.enum.chart import XL_CHART_TYPE
 
-            cd = CategoryChartData(number_format='0 "R&D"')
-            cd.categories = ["a"]
-            cd.add_series("s", (1,))
-            gf = slide.shapes.add_chart(XL_CHART_TYPE.PIE, 0, 0, 10, 10, cd)
-            got = gf.chart._chartSpace.xpath(".//c:val//c:formatCode/text()")
-            return (got != ['0 "R&D"'], "formatCode reads %r" % got)
+            for nasty in nasties:
+                cd = CategoryChartData(number_format=nasty)
+                cd.categories = ["a"]
+                cd.add_series("s", (1,), number_format=nasty + "!")
+                gf = slide.shapes.add_chart(XL_CHART_TYPE.PIE, 0, 0, 10, 10, cd)
+                got = gf.chart._chartSpace.xpath(".//c:val//c:formatCode/text()")
+                if got != [nasty + "!"]:
+                    return (True, "series number format %r: formatCode reads %r" % (nasty + "!", got))
+                cd = CategoryChartData(number_format=nasty)
+                cd.categories = [1.5, 2.5]
+                cd.add_series("s", (1, 2))
+                gf = slide.shapes.add_chart(XL_CHART_TYPE.LINE, 0, 0, 10, 10, cd)
+                got = gf.chart._chartSpace.xpath(".//c:val//c:formatCode/text()")
+                if got != [nasty]:
+                    return (True, "chart-data number format %r: values formatCode reads %r" % (nasty, got))
+                xy = XyChartData(number_format=nasty)
+                xy.add_series("s").add_data_point(1, 2)
+                gf = slide.shapes.add_chart(XL_CHART_TYPE.XY_SCATTER, 0, 0, 10, 10, xy)
+                got = set(gf.chart._chartSpace.xpath(".//c:ser//c:formatCode/text()"))
+                if got != {nasty}:
+                    return (True, "XY number format %r: formatCode reads %r" % (nasty, sorted(got)))
+            return (False, "number formats with markup characters read back verbatim")
         if which == "chart-series-name":
-            from pptx.chart.data import CategoryChartData
+            from pptx.chart.data import BubbleChartData, CategoryChartData, XyChartData
             from pptx.enum.chart import XL_CHART_TYPE
 
-            for nasty in (NASTY, NASTY2, "a > b", "]]>"):
+            for nasty in nasties:
                 cd = CategoryChartData()
                 cd.categories = [nasty, "b"]
                 cd.add_series(nasty, (1, 2))
                 gf = slide.shapes.add_chart(XL_CHART_TYPE.BAR_CLUSTERED, 0, 0, 10, 10, cd)
                 plot = gf.chart.plots[0]
-                ok = list(plot.categories)[0] == nasty and plot.series[0].name == nasty
-                if not ok:
+                if not (list(plot.categories)[0] == nasty and plot.series[0].name == nasty):
                     return (True, "series name %r, category %r (given %r)" % (plot.series[0].name, list(plot.categories)[0], nasty))
+                # multi-level categories, every level
+                cd = CategoryChartData()
+                top = cd.add_category(nasty)
+                top.add_sub_category(nasty + "1")
+                top.add_sub_category("plain")
+                cd.add_series(nasty, (1, 2))
+                gf = slide.shapes.add_chart(XL_CHART_TYPE.COLUMN_CLUSTERED, 0, 0, 10, 10, cd)
+                cats = gf.chart.plots[0].categories
+                lv = [[c.label for c in level] for level in cats.levels]
+                if lv != [[nasty + "1", "plain"], [nasty]]:
+                    return (True, "multi-level categories read %r (given %r / %r)" % (lv, nasty, nasty + "1"))
+                # replace_data goes through the rewriter
+                gf.chart.replace_data(cd)
+                if gf.chart.plots[0].series[0].name != nasty:
+                    return (True, "after replace_data the series name reads %r (given %r)" % (gf.chart.plots[0].series[0].name, nasty))
+                for data, ct in ((XyChartData(), XL_CHART_TYPE.XY_SCATTER), (BubbleChartData(), XL_CHART_TYPE.BUBBLE)):
+                    sr = data.add_series(nasty)
+                    sr.add_data_point(1, 2, 3) if ct == XL_CHART_TYPE.BUBBLE else sr.add_data_point(1, 2)
+                    gf = slide.shapes.add_chart(ct, 0, 0, 10, 10, data)
+                    if gf.chart.plots[0].series[0].name != nasty:
+                        return (True, "%s series name reads %r (given %r)" % (ct, gf.chart.plots[0].series[0].name, nasty))
             return (False, "series names and categories with markup characters read back verbatim")
         if which == "ole-progid":
-            blob = io.BytesIO(b"hello")
-            gf = slide.shapes.add_ole_object(blob, 'My"Prog&Id', Emu(0), Emu(0), Emu(10), Emu(10))
-            got = gf._element.xpath(".//p:oleObj/@progId")[0]
-            return (got != 'My"Prog&Id', "progId reads %r" % got)
-        if which == "movie-name":
-            import os
-            import tempfile
-
-            d = tempfile.mkdtemp(prefix="c05_")
-            try:
-                path = os.path.join(d, 'mo"v&ie.mp4')
-                open(path, "wb").write(b"\x00" * 16)
-                mv = slide.shapes.add_movie(path, Emu(0), Emu(0), Emu(10), Emu(10), mime_type="video/mp4")
-                got = mv._element.xpath("./p:nvPicPr/p:cNvPr/@name")[0]
-                return (got != 'mo"v&ie.mp4', "name reads %r" % got)
-            finally:
-                import shutil
-
-                shutil.rmtree(d, ignore_errors=True)
-        if which == "ph-picture-desc":
-            import os
-            import tempfile
-
-            prs2 = Presentation()
-            s2 = prs2.slides.add_slide(prs2.slide_layouts[8])
-            ph = [p for p in s2.placeholders if p.placeholder_format.type is not None and "PICTURE" in str(p.placeholder_format.type)][0]
-            d = tempfile.mkdtemp(prefix="c05_")
-            try:
-                path = os.path.join(d, 'a"b&c.png')
-                PIL.new("RGB", (2, 2)).save(path)
-                pic = ph.insert_picture(path)
-                got = pic._element.xpath("./p:nvPicPr/p:cNvPr/@descr")[0]
-                return (got != 'a"b&c.png', "descr reads %r" % got)
-            finally:
-                import shutil
-
-                shutil.rmtree(d, ignore_errors=True)
+            for nasty in nasties:
+                gf = slide.shapes.add_ole_object(io.BytesIO(b"hello"), nasty, Emu(0), Emu(0), Emu(10), Emu(10))
+                got = gf._element.xpath(".//p:oleObj/@progId")[0]
+                if got != nasty:
+                    return (True, "progId %r reads %r" % (nasty, got))
+            return (False, "prog ids with markup characters read back verbatim")
     except Exception as e:
         return (True, "%s: %r" % (which, e))
     return (False, "no native scenario for %s" % which)
@@ -271,8 +295,33 @@ def _replay(model, rec):
     for key, which in PROBE_FOR.items():
         if key in origin:
             failed, detail = _native_probe(which)
-            return {"confirmed": bool(failed), "witness_class": "markup-injection:" + which, "detail": "%s with a string holding \" & < : %s" % (which, detail)}
+            return {"confirmed": bool(failed), "witness_class": "markup-injection:" + which, "detail": "%s with strings holding \" & < ; and entity look-alikes: %s" % (which, detail)}
+    if not origin:
+        # bounded stand-in of a contract that left the supported subset: every public-API scenario
+        for which in sorted(set(PROBE_FOR.values())):
+            failed, detail = _native_probe(which)
+            if failed:
+                return {"confirmed": True, "witness_class": "markup-injection:" + which, "detail": "%s: %s" % (which, detail)}
+        return {"confirmed": False, "detail": "every public-API scenario keeps %d nasty strings as data" % len(NASTIES)}
     return {"confirmed": False, "detail": "no public-API scenario registered for origin %r" % origin}
+
+
+def _native_strings(tier="quick", seed=0):
+    """BOUNDED: the public entry points that carry caller strings into XML templates, each with every string of NASTIES."""
+    import time as _t
+
+    t0 = _t.time()
+    obls = []
+    for which in sorted(set(PROBE_FOR.values())):
+        failed, detail = _native_probe(which)
+        r = {"name": "C05.native.strings_stay_data[%s]" % which, "base": "C05.native.strings_stay_data[%s]" % which, "kind": "bounded",
+             "status": "refuted" if failed else "discharged", "backend": "native", "time": 0, "path": 0}
+        if failed:
+            r["replay"] = {"confirmed": True, "witness_class": "markup-injection:" + which, "detail": detail}
+            r["model"] = None
+        obls.append(r)
+    return {"contract": "C05.native_strings", "status": "ok", "obligations": obls, "paths": 0, "wall_s": _t.time() - t0, "solver_s": 0.0,
+            "functions": {}, "assumed": [], "bounded": {"what": "public entry points x %d strings with markup characters, entity / CDATA / comment / format-spec look-alikes" % len(NASTIES), "evaluations": len(NASTIES) * len(set(PROBE_FOR.values()))}}
 
 
 # --------------------------------------------------------------------------------------------
@@ -551,3 +600,4 @@ def _series_writer_contracts():
 
 
 _series_writer_contracts()
+JOBS = {"C05.native_strings": _native_strings}
